@@ -43,7 +43,7 @@ def generate(seed, tier="quick"):
     shape = gen_any_shape(r, max_cells=3, max_branches=3, max_ncomp=3)
     o = stream(seed, "ops")
     N = o.randint(3, 16)
-    cfg = {"L": N, "channels": o.sample(mech.CHANNELS, o.randint(1, 4)), "synapses": o.sample(mech.SYNAPSES, o.randint(1, 3)), "max_edges": 6}
+    cfg = {"L": N, "channels": o.sample(mech.CHANNELS, o.randint(1, 4)), "synapses": o.sample(mech.SYNAPSES, o.randint(1, 3)), "max_edges": 6, "p_syn_clamp": 0.3}
     dw = DryWorld(shape)
     ops = []
     for op in init_value_ops(o, dw.ref):
@@ -72,15 +72,15 @@ def generate(seed, tier="quick"):
     for _ in range(o.randint(3, 6)):
         k = o.random()
         if k < 0.4:
-            calls.append({"kind": "knob", "mode": o.choice(["eager", "jit", "jit"]), "ckpt": _ckpt(o, n)})
+            calls.append({"kind": "knob", "mode": o.choice(["eager", "jit", "jit"]), "ckpt": _ckpt(o, n), "with_ps": o.random() < 0.5})
         elif k < 0.62:
             calls.append({"kind": "vmap", "over": o.choice(["params", "data_set", "stim"]), "batch": o.randint(1, 3), "jit": o.random() < 0.4,
                           "ckpt": _ckpt(o, n) if o.random() < 0.3 else None, "seed": o.randrange(1 << 30), "target": o.randrange(1 << 16),
-                          "key": o.choice(["radius", "length", "capacitance", "axial_resistivity", "v"])})
+                          "key": o.choice(["radius", "length", "capacitance", "axial_resistivity", "v"]), "with_ps": o.random() < 0.5})
         elif k < 0.74:
             calls.append({"kind": "repeat"})
         elif k < 0.87:
-            calls.append({"kind": "abort", "point": o.choice(faults.ABORT_POINTS)})
+            calls.append({"kind": "abort", "point": o.choice(faults.ABORT_POINTS), "with_ps": o.random() < 0.5})
         else:
             calls.append({"kind": "reject", "why": o.choice(["ckpt_too_small", "no_tmax", "clamp_short"])})
     return {"prop": PROPERTY, "shape": shape, "ops": ops, "N": N, "steps": steps, "dt": o.choice(DTS),
@@ -133,6 +133,7 @@ def execute(program):
                 lo, hi = mech.value_range(key_)
                 base["param_state"] = m.select(nodes=[t_]).data_set(key_, uval(k_, key_, 0, lo, hi), None)
         w.bump("probe_shared_param_state")
+    shared_ps = base.pop("param_state", None)
     mask = np.ones(len(ref.recordings), dtype=bool)
     mask[nan_rows(ref)] = False
 
@@ -174,16 +175,34 @@ def execute(program):
     if ref_out.shape != (len(ref.recordings), steps + 1):
         w.violate("row_shape", f"shape {ref_out.shape}, expected {(len(ref.recordings), steps + 1)}", nidx)
         return res()
+    # When a data_set param_state is in play, invocations with and without it are interleaved; each is compared with
+    # the reference of its own kind (a value that leaks from one call into a later one shows as a difference).
+    refs = {False: ref_out}
+    if shared_ps is not None:
+        try:
+            refs[True] = call(param_state=shared_ps)
+        except Exception as e:  # noqa: BLE001
+            if exc_in_harness(e):
+                raise HarnessError(f"{type(e).__name__}: {e}") from e
+            w.violate("mode_equal", f"integrate with a data_set param_state raised {exc_text(e)}", nidx)
+            return res()
+        again = call()
+        if not np.array_equal(again, ref_out, equal_nan=True):
+            w.violate("repeat_bit_identical", f"a plain call after a call with param_state differs from the plain call before it by {simrun.maxdiff(again, ref_out):.3e}", nidx)
+            return res()
     last_kw = {}
     last_out = ref_out
     for ci, c in enumerate(program["calls"]):
         if w.violations:
             break
         kind = c["kind"]
+        with_ps = bool(c.get("with_ps")) and shared_ps is not None
+        ref_out = refs[with_ps]
+        base["param_state"] = shared_ps if with_ps else None
         try:
             if kind == "knob":
                 ck = c["ckpt"] if c["ckpt"] is not None and math.prod(c["ckpt"]) >= steps else None
-                kw = {"mode": c["mode"], "ckpt": ck}
+                kw = {"mode": c["mode"], "ckpt": ck, "param_state": base["param_state"]}
                 out = call(**kw)
                 if ck is not None and math.prod(ck) > steps:
                     w.bump("probe_ckpt_prod_gt_steps")
@@ -194,6 +213,7 @@ def execute(program):
                               {"mode": c["mode"], "ckpt": ck})
                 last_kw, last_out = kw, out
             elif kind == "repeat":
+                base["param_state"] = last_kw.get("param_state")
                 out = call(**last_kw)
                 w.bump("oracle_repeat")
                 if not np.array_equal(out, last_out, equal_nan=True):
